@@ -169,7 +169,7 @@ func ftokenize(s string) ([]string, error) {
 			}
 			toks = append(toks, s[i:j])
 			i = j
-		case unicode.IsDigit(rune(c)) || (c == '-' && i+1 < len(s) && unicode.IsDigit(rune(s[i+1]))):
+		case unicode.IsDigit(rune(c)) || (c == '-' && i+1 < len(s) && unicode.IsDigit(rune(s[i+1])) && signPosition(toks)):
 			j := i + 1
 			for j < len(s) && (unicode.IsDigit(rune(s[j])) || unicode.IsLetter(rune(s[j]))) {
 				j++
@@ -177,7 +177,7 @@ func ftokenize(s string) ([]string, error) {
 			toks = append(toks, s[i:j])
 			i = j
 		default:
-			for _, op := range []string{"&&", "||", "==", "!=", "<=", ">=", "<", ">", "!", "(", ")"} {
+			for _, op := range []string{"&&", "||", "==", "!=", "<=", ">=", "<", ">", "!", "(", ")", "+", "-"} {
 				if strings.HasPrefix(s[i:], op) {
 					toks = append(toks, op)
 					i += len(op)
@@ -189,6 +189,19 @@ func ftokenize(s string) ([]string, error) {
 		}
 	}
 	return toks, nil
+}
+
+// signPosition reports whether a '-' at this point starts a negative literal
+// (rather than being the subtraction operator).
+func signPosition(toks []string) bool {
+	if len(toks) == 0 {
+		return true
+	}
+	switch toks[len(toks)-1] {
+	case "&&", "||", "==", "!=", "<=", ">=", "<", ">", "!", "(", "+", "-":
+		return true
+	}
+	return false
 }
 
 func parseFExpr(s string) (*fexpr, error) {
@@ -258,15 +271,32 @@ func (p *fparser) not() (*fexpr, error) {
 	return p.cmp()
 }
 
-func (p *fparser) cmp() (*fexpr, error) {
+func (p *fparser) sum() (*fexpr, error) {
 	a, err := p.prim()
+	if err != nil {
+		return nil, err
+	}
+	for p.peek() == "+" || p.peek() == "-" {
+		op := p.peek()
+		p.pos++
+		b, err := p.prim()
+		if err != nil {
+			return nil, err
+		}
+		a = &fexpr{op: op, a: a, b: b}
+	}
+	return a, nil
+}
+
+func (p *fparser) cmp() (*fexpr, error) {
+	a, err := p.sum()
 	if err != nil {
 		return nil, err
 	}
 	switch op := p.peek(); op {
 	case "==", "!=", "<", "<=", ">", ">=":
 		p.pos++
-		b, err := p.prim()
+		b, err := p.sum()
 		if err != nil {
 			return nil, err
 		}
@@ -347,6 +377,15 @@ func (in *Interp) evalF(e *fexpr) fval {
 			}
 		}
 		return fval{undef: true}
+	case "+", "-":
+		a, b := in.evalF(e.a), in.evalF(e.b)
+		if a.undef || b.undef || a.isStr || b.isStr || a.isBool || b.isBool {
+			return fval{undef: true}
+		}
+		if e.op == "+" {
+			return fval{t: st.Bin(OpAdd, a.t, b.t)}
+		}
+		return fval{t: st.Bin(OpSub, a.t, b.t)}
 	case "!":
 		a := in.evalF(e.a)
 		if a.undef || !a.isBool {
